@@ -5,8 +5,10 @@
 
    Walkers are Parser.v's {tail; cur; lim} with ABSOLUTE byte offsets: a Rust sub-walker `slice(start, end)` (own src,
    span_offset = start) is the walker {tail at start; cur := start; lim := end}; a token span is (cur, cur + length).
-   `block_nesting_depth` (a field of the Rust Walker, copied into slices, +1/-1 around a braced #if arm) is the explicit
-   parameter `bd`.
+   `block_nesting_depth` (a field of the Rust Walker, copied into slices, +1/-1 around a braced #if arm and +1 for the
+   sub-walker of an asm block: both share the limit) is the explicit parameter `bd`; `expr_nesting_depth` (the
+   recursion depth of the expression that encloses the text of a sub-walker; every ExpressionParser starts from it,
+   so the expression depth is cumulative across asm blocks) is the explicit parameter `ed`.
 
    Expressions: the generic parser `gparse_expr hook` is Parser.parse_expr verbatim (same functions, same order of tests,
    same depth counter) plus the two things the code does and Parser.v leaves to its driver: string literals are unescaped
@@ -139,7 +141,7 @@ Fixpoint until_lb (t : text) (c : N) (skip : N) (e : N) (nest : nat) : N * text 
 (* ---------- the expression parser, generic in the asm-block hook ---------- *)
 Section GExpr.
 Context {A : Type}.
-Variable hook : walker -> pres (span * A).      (* called with the next useful token being KeywordAsm *)
+Variable hook : nat -> walker -> pres (span * A).   (* parse_asm: called with self.recursion_depth, the next useful token being KeywordAsm *)
 
 Fixpoint gparse_expr (fuel : nat) (depth : nat) (w : walker) {struct fuel} : pres (gexpr A) :=
   match fuel with
@@ -276,7 +278,7 @@ with gparse_leaf (fuel : nat) (depth : nat) (w : walker) {struct fuel} : pres (g
       do (t, w) <- xexpect w TString;
       match string_contents t with Some _ => POk (GStr t) w | None => PErr end
     else if xnext_useful_is w TKeywordAsm then
-      do (p, w) <- hook w; POk (GAsm (fst p) (snd p)) w
+      do (p, w) <- hook depth w; POk (GAsm (fst p) (snd p)) w
     else if xnext_useful_is w TKeywordTrue then do (_x, w) <- xexpect w TKeywordTrue; POk (GBool true) w
     else if xnext_useful_is w TKeywordFalse then do (_x, w) <- xexpect w TKeywordFalse; POk (GBool false) w
     else PErr
@@ -434,12 +436,14 @@ Fixpoint extract_field (name : text) (l : list afield) : option afield * list af
 Definition field_expr (o : option afield) : option xexpr := match o with Some (_, _, e) => e | None => None end.
 Definition field_present (o : option afield) : bool := match o with Some _ => true | None => false end.
 
-(* ---------- directives that contain expressions, parametric in the asm hook; `f` is the ambient fuel ---------- *)
+(* ---------- directives that contain expressions, parametric in the asm hook; `f` is the ambient fuel, `ed` the
+   expression depth the walker carries ---------- *)
 Section Directives.
-Variable hook : walker -> pres (span * list anode).
+Variable hook : nat -> walker -> pres (span * list anode).
 Variable f : nat.
+Variable ed : nat.                                  (* Walker::expr_nesting_depth: where ExpressionParser::new starts *)
 
-Definition pexpr (w : walker) : pres xexpr := gparse_expr hook f 0 w.
+Definition pexpr (w : walker) : pres xexpr := gparse_expr hook f ed w.
 
 (* symbol.rs *)
 Definition parse_symbol (w : walker) : pres anode :=
@@ -607,17 +611,17 @@ Definition parse_directive (k : dkind) (header : span) (w : walker) : pres anode
 End Directives.
 
 (* ---------- the recursive knot: lines, #if blocks, asm blocks ---------- *)
-Fixpoint parse_lines (fuel : nat) (bd : nat) (nested : bool) (w : walker) (acc : list anode) {struct fuel} : pres (list anode) :=
+Fixpoint parse_lines_d (fuel : nat) (bd : nat) (ed : nat) (nested : bool) (w : walker) (acc : list anode) {struct fuel} : pres (list anode) :=
   match fuel with
   | O => PFuel
   | S f =>
     if xover w then POk (rev acc) w
     else if nested && xnext_useful_is w TBraceClose then POk (rev acc) w
     else
-      do (on, w) <- parse_line f bd w;
-      parse_lines f bd nested w (match on with Some n => n :: acc | None => acc end)
+      do (on, w) <- parse_line_d f bd ed w;
+      parse_lines_d f bd ed nested w (match on with Some n => n :: acc | None => acc end)
   end
-with parse_line (fuel : nat) (bd : nat) (w : walker) {struct fuel} : pres (option anode) :=
+with parse_line_d (fuel : nat) (bd : nat) (ed : nat) (w : walker) {struct fuel} : pres (option anode) :=
   match fuel with
   | O => PFuel
   | S f =>
@@ -626,37 +630,37 @@ with parse_line (fuel : nat) (bd : nat) (w : walker) {struct fuel} : pres (optio
       do (nm, w) <- xexpect_sp w TIdentifier;
       let header := join_s (fst h) (fst nm) in
       match classify (map to_lower (snd nm)) with
-      | DIf => do (n, w) <- parse_if f bd header w; POk (Some n) w
-      | k => do (n, w) <- parse_directive (asm_hook f bd) f k header w; POk (Some n) w
+      | DIf => do (n, w) <- parse_if_d f bd ed header w; POk (Some n) w
+      | k => do (n, w) <- parse_directive (asm_hook f bd) f ed k header w; POk (Some n) w
       end
     else if (xnext_useful_is w TIdentifier && (xnext_useful_is1 w TColon || xnext_useful_is1 w TEqual)) || xnext_useful_is w TDot then
-      do (n, w) <- parse_symbol (asm_hook f bd) f w; POk (Some n) w
+      do (n, w) <- parse_symbol (asm_hook f bd) f ed w; POk (Some n) w
     else
       match xnext_linebreak w with
       | Some w' => POk None w'
       | None => do (n, w) <- parse_instruction w; POk (Some n) w
       end
   end
-with parse_if (fuel : nat) (bd : nat) (header : span) (w : walker) {struct fuel} : pres anode :=
+with parse_if_d (fuel : nat) (bd : nat) (ed : nat) (header : span) (w : walker) {struct fuel} : pres anode :=
   match fuel with
   | O => PFuel
   | S f =>
-    do (c, w) <- gparse_expr (asm_hook f bd) f 0 w;
-    do (t, w) <- parse_braced f bd w;
-    do (e, w) <- parse_else f bd w;
+    do (c, w) <- gparse_expr (asm_hook f bd) f ed w;
+    do (t, w) <- parse_braced_d f bd ed w;
+    do (e, w) <- parse_else_d f bd ed w;
     POk (NIf header c t e) w
   end
-with parse_braced (fuel : nat) (bd : nat) (w : walker) {struct fuel} : pres (list anode) :=
+with parse_braced_d (fuel : nat) (bd : nat) (ed : nat) (w : walker) {struct fuel} : pres (list anode) :=
   match fuel with
   | O => PFuel
   | S f =>
     do (_b, w) <- xexpect w TBraceOpen;
     if Nat.leb PARSE_DEPTH_MAX bd then PErr else           (* "block nesting depth limit reached" *)
-    do (ns, w) <- parse_lines f (S bd) true w [];
+    do (ns, w) <- parse_lines_d f (S bd) ed true w [];
     do (_c, w) <- xexpect w TBraceClose;
     POk ns w
   end
-with parse_else (fuel : nat) (bd : nat) (w : walker) {struct fuel} : pres (option (list anode)) :=
+with parse_else_d (fuel : nat) (bd : nat) (ed : nat) (w : walker) {struct fuel} : pres (option (list anode)) :=
   match fuel with
   | O => PFuel
   | S f =>
@@ -665,16 +669,16 @@ with parse_else (fuel : nat) (bd : nat) (w : walker) {struct fuel} : pres (optio
     if text_eqb name nm_else then
       do (_h, w) <- xexpect w THash;
       do (_n, w) <- xexpect w TIdentifier;
-      do (b, w) <- parse_braced f bd w;
+      do (b, w) <- parse_braced_d f bd ed w;
       POk (Some b) w
     else if text_eqb name nm_elif then
       do (h, w) <- xexpect_sp w THash;
       do (nm, w) <- xexpect_sp w TIdentifier;
-      do (n, w) <- parse_if f bd (join_s (fst h) (fst nm)) w;
+      do (n, w) <- parse_if_d f bd ed (join_s (fst h) (fst nm)) w;
       POk (Some [n]) w
     else POk None w
   end
-with asm_hook (fuel : nat) (bd : nat) (w : walker) {struct fuel} : pres (span * list anode) :=
+with asm_hook (fuel : nat) (bd : nat) (depth : nat) (w : walker) {struct fuel} : pres (span * list anode) :=
   match fuel with
   | O => PFuel
   | S f =>
@@ -682,7 +686,8 @@ with asm_hook (fuel : nat) (bd : nat) (w : walker) {struct fuel} : pres (span * 
     do (_b, w) <- xexpect w TBraceOpen;
     let n := closing_brace_len (tail w) 0 in
     let inner := {| tail := take_bytes n (tail w); cur := cur w; lim := cur w + n |} in
-    match parse_lines f bd true inner [] with
+    if Nat.leb PARSE_DEPTH_MAX bd then PErr else           (* "block nesting depth limit reached": shared with #if *)
+    match parse_lines_d f (S bd) depth true inner [] with  (* inner.expr_nesting_depth = self.recursion_depth *)
     | POk ns _ =>
       let w := advance w n in
       do (c, w) <- xexpect_sp w TBraceClose;
@@ -691,6 +696,10 @@ with asm_hook (fuel : nat) (bd : nat) (w : walker) {struct fuel} : pres (span * 
     | PFuel => PFuel
     end
   end.
+
+(* the entry points at expression depth 0 (a walker made by Walker::new) *)
+Definition parse_lines (fuel bd : nat) (nested : bool) (w : walker) (acc : list anode) : pres (list anode) := parse_lines_d fuel bd 0 nested w acc.
+Definition parse_braced (fuel bd : nat) (w : walker) : pres (list anode) := parse_braced_d fuel bd 0 w.
 
 Definition FUEL_K : nat := 64.
 Definition file_fuel (t : text) : nat := FUEL_K * (List.length t + 16).
